@@ -14,7 +14,7 @@ from kernpy.core.kern_spine_importer import KernSpineImporter
 from kernpy.core import tokens as tk
 
 # ---- cores (unconditional)
-DEC_CORE = ['L', 'J', 'K', 'k', ';', '(', ')', '[', ']', '_', "'", '^', '~', '/', '\\', ':', 't', 'T', 'M', 'm', 'w', 'W', '{', '}',
+DEC_CORE = ['L', 'J', 'K', 'k', ';', '(', ')', '[', ']', '_', "'", '^', '~', '/', '\\', ':', 't', 'M', 'm', 'w', '{', '}',
             '"', '`', 's', 'S', '$', 'O', 'N', 'V', 'l', 'i']            # the 30+ signifiers that do not combine (property C01); checked pairwise below
 REST_DEC_CORE = [';', '(', ')', '{', '}', "'"]
 DUR_CORE = ['1', '2', '4', '8', '16']
@@ -66,6 +66,12 @@ def classify(base='4c'):
     out['dec'] = dec
     # ---- canonical subset: pairwise non-combining ('4c'+s+t yields exactly {s, t})
     canon = [s for s in dec if s not in COMBINING and s not in ('q', 'qq', 'p', 'P', '.')]
+    # a signifier that combines with ITSELF under repetition ('TT' is an extended trill, '??' one footnote) is not canonical
+    for s in list(canon):
+        tok = P.parse(base + s + s)
+        if not (isinstance(tok, tk.NoteRestToken) and [d.encoding for d in tok.decoration_subtokens] == [s]
+                and [x.encoding for x in tok.pitch_duration_subtokens] == ['4', 'c']):
+            canon.remove(s)
     changed = True
     while changed:
         changed = False
